@@ -154,7 +154,24 @@ func mWithCancel(parent context.Context) (context.Context, context.CancelFunc) {
 
 //verif:model context.WithTimeout
 func mWithTimeout(parent context.Context, d time.Duration) (context.Context, context.CancelFunc) {
-	return mWithCancel(parent)
+	c := &vCtx{done: make(chan struct{})}
+	cancel := func() {
+		if !c.closed {
+			c.closed = true
+			close(c.done)
+		}
+	}
+	expire := time.After(d)
+	go func() {
+		vDaemon()
+		select {
+		case <-parent.Done():
+		case <-expire:
+		case <-c.done:
+		}
+		cancel()
+	}()
+	return c, cancel
 }
 
 // ---------------- os / net / crypto models ----------------
@@ -353,7 +370,7 @@ func harnessC04() {
 	vCover("kill-returned")
 	vAssert(p.isDead, "C04: after Kill the plugin process has exited")
 	vAssert(c.Exited(), "C04: after Kill the client reports the plugin as exited")
-	vAssert(el <= 3*sec, "C04: Kill returns within the grace period plus slack")
+	vAssert(el <= 5*sec, "C04: Kill returns within a bounded time (shutdown-request deadline 2 s + grace period 2 s + 1 s slack)")
 	if p.behaviour == 0 && p.delay < 2*sec {
 		vCover("graceful")
 		vAssert(p.killed == 0, "C04: a plugin that exits within the grace period is not force-killed")
